@@ -206,6 +206,7 @@ func run(c *core.Ctx, rw io.ReadWriteCloser, ch *chunker, trees []wire.Node, bou
 	c.Count("segmentation."+sname, 1)
 	c.Distinct(core.Hash64(sname, fmt.Sprint(bounds)))
 	label := fmt.Sprintf("%d messages (ends at %v), segmentation %s", len(trees), bounds, sname)
+	heldValues := make([]*ttlv.Value, len(trees))
 	for j := range trees {
 		var v ttlv.Value
 		var err error
@@ -234,8 +235,21 @@ func run(c *core.Ctx, rw io.ReadWriteCloser, ch *chunker, trees []wire.Node, bou
 			c.Violation("C07:wrong-message:"+segClass(sname), fmt.Sprintf("Recv %d returns a message different from the one sent at that position (%s)", j+1, label), map[string]any{"want": trees[j].String(), "got": got.String()})
 			return
 		}
+		kept := v
+		heldValues[j] = &kept
 		if ch.handed != bounds[j] {
 			c.Violation("C07:consumed-wrong-amount:"+segClass(sname), fmt.Sprintf("after message %d the receiver has consumed %d bytes, the messages so far are %d bytes long (%s)", j+1, ch.handed, bounds[j], label), nil)
+			return
+		}
+	}
+	// every message returned earlier is still what it was when it was returned (later Recvs do not rewrite it)
+	for j, hv := range heldValues {
+		if hv == nil {
+			continue
+		}
+		c.Count("held_messages_rechecked", 1)
+		if got, cerr := gen.FromValue(*hv); cerr != nil || !wire.Equal(trees[j], got) {
+			c.Violation("C07:earlier-message-rewritten:"+segClass(sname), fmt.Sprintf("message %d, correct when Recv returned it, reads differently after the later messages were received (%s)", j+1, label), map[string]any{"want": trees[j].String(), "now": got.String()})
 			return
 		}
 	}
@@ -285,6 +299,49 @@ func truncCase(c *core.Ctx, r *core.Rand, i int) {
 		}
 	}
 	c.Distinct(core.Hash64("trunc", fmt.Sprint(size), sname))
+}
+
+// smallLimitCase: a stream configured with a SMALL maximum (below the receiver's initial 512-byte buffer): complete,
+// well-formed messages of sizes around the maximum; above it they must be rejected, at or below it delivered.
+func smallLimitCase(c *core.Ctx, r *core.Rand, i int) {
+	max := []int{16, 64, 128, 256, 504, 512, 1024}[i%7]
+	size := max + []int{-16, -8, 0, 8, 16, 64, 200}[(i/7)%7]
+	if size < 8 {
+		size = 8
+	}
+	n := wire.Node{Tag: kmip.TagData, Type: wire.ByteString, Bytes: r.Bytes(size - 8)}
+	if (size-8)%8 != 0 {
+		n.Bytes = r.Bytes((size - 8) &^ 7)
+	}
+	msg := wire.Gen(n)
+	next, nextBytes := message(r, 64)
+	sizes, sname := schedule(r, r.Intn(4), nil)
+	ch := &chunker{data: append(append([]byte{}, msg...), nextBytes...), sizes: sizes}
+	st := ttlv.NewStream(ch, max)
+	var v ttlv.Value
+	err := st.Recv(&v)
+	c.Count("small_limit_cases", 1)
+	c.Distinct(core.Hash64("small-limit", fmt.Sprint(max, len(msg)), sname))
+	label := fmt.Sprintf("complete message of %d bytes, maximum %d, segmentation %s", len(msg), max, sname)
+	if len(msg) > max {
+		c.Count("small_limit_cases.over", 1)
+		if err == nil {
+			c.Violation("C07:over-limit-accepted:small-maximum", "a message larger than the configured maximum is delivered ("+label+")", nil)
+		}
+		return
+	}
+	if err != nil {
+		c.Violation("C07:message-lost:small-maximum", fmt.Sprintf("a message within the configured maximum is refused: %v (%s)", err, label), nil)
+		return
+	}
+	if got, cerr := gen.FromValue(v); cerr != nil || !wire.Equal(n, got) {
+		c.Violation("C07:wrong-message:small-maximum", "a message within a small maximum is delivered altered ("+label+")", nil)
+		return
+	}
+	if ch.handed != len(msg) {
+		c.Violation("C07:consumed-wrong-amount:small-maximum", fmt.Sprintf("consumed %d bytes for a message of %d (%s)", ch.handed, len(msg), label), nil)
+	}
+	_ = next
 }
 
 func limitCase(c *core.Ctx, r *core.Rand, i int) {
@@ -465,12 +522,13 @@ func Spec() *core.Spec {
 		Level: "fault_enumeration",
 		Rule: "sequences of 1-6 generic messages (sizes 16 B .. 9 KB around the 512-byte initial buffer, now and then up to 1 MiB) x segmentations {1-byte reads, fixed 2..9, random, one read, cuts exactly at / one byte around every message boundary} with byte accounting after every Recv; " +
 			"truncation at EVERY byte offset of messages up to 2 KB behind a complete message; announced lengths {max-16 .. max+8, 2*max, 2^31, 2^32-8, 2^32-1} for max in {64 KiB, 1 MiB} with consumed-byte, requested-size and TotalAlloc monitors; " +
-			"the last chunk delivered together with io.EOF; byte-wise delivery against a real server connection and a real client connection. every fifth item a bare padded scalar; one item in twelve a correctly delimited frame with an invalid type byte (Recv fails, consumes exactly the frame, later messages intact); distinct = distinct (segmentation, boundaries) / (size, offset class) combinations",
+			"the last chunk delivered together with io.EOF; byte-wise delivery against a real server connection and a real client connection. every fifth item a bare padded scalar; all messages of a sequence re-read after the last Recv; small configured maxima (16..1024) with complete messages around them; one item in twelve a correctly delimited frame with an invalid type byte (Recv fails, consumes exactly the frame, later messages intact); distinct = distinct (segmentation, boundaries) / (size, offset class) combinations",
 		Assumptions: []string{"messages are compared as trees read back by the harness from the generic value", "alloc monitor: runtime.MemStats.TotalAlloc delta around a single-goroutine call, threshold 256 KiB"},
-		Required:    []string{"sequences", "recvs", "scalar_messages", "undecodable_frames_in_sequences", "truncations", "limit_cases.over", "limit_cases.within", "eof_with_data_cases", "e2e_server_messages", "e2e_client_messages", "segmentation.1-byte", "segmentation.one-read"},
+		Required:    []string{"sequences", "recvs", "scalar_messages", "undecodable_frames_in_sequences", "small_limit_cases.over", "held_messages_rechecked", "truncations", "limit_cases.over", "limit_cases.within", "eof_with_data_cases", "e2e_server_messages", "e2e_client_messages", "segmentation.1-byte", "segmentation.one-read"},
 		Families: []core.Family{
 			{Name: "sequences", N: nOf(20000, 800000), Run: seqCase},
 			{Name: "truncation", Exhaustive: true, N: nOf(8*6, 8*200), Run: truncCase},
+			{Name: "small-limit", Exhaustive: true, N: nOf(49*4, 49*40), Run: smallLimitCase},
 			{Name: "limit", Exhaustive: true, N: nOf(2*10*4, 2*10*100), Run: limitCase},
 			{Name: "data-with-eof", N: nOf(400, 20000), Run: eofWithDataCase},
 			{Name: "end-to-end", N: nOf(200, 6000), Run: e2eCase, Timeout: 20 * time.Second},
